@@ -22,6 +22,7 @@ func init() { Drivers["auth"] = drvAuth }
 // AuthScenario is one terminal state exported by spec/Accept.tla.
 type AuthScenario struct {
 	ID          string   `json:"id"`
+	Path        string   `json:"path"`
 	First       string   `json:"first"`
 	Pipe        string   `json:"pipe"`
 	Timing      string   `json:"timing"`
@@ -104,7 +105,7 @@ func packFrame(mtype byte, seq int32, method string, body interface{}, stat *erp
 }
 
 func runAuth(rec *Rec, sc *AuthScenario, n int, rnd *rand.Rand) {
-	rec.SetTrace(sc.ID, map[string]interface{}{"mode": "auth", "first": sc.First, "pipe": sc.Pipe, "timing": sc.Timing,
+	rec.SetTrace(sc.ID, map[string]interface{}{"mode": "auth", "path": sc.Path, "first": sc.First, "pipe": sc.Pipe, "timing": sc.Timing,
 		"hookpos": sc.HookPos, "hookverdict": sc.HookVerdict, "expestablished": sc.Established})
 	app := NewApp(rec, nil)
 	CurApp = app
@@ -228,10 +229,33 @@ func runAuth(rec *Rec, sc *AuthScenario, n int, rnd *rand.Rand) {
 		a.Write(first)
 	}
 	served := make(chan erpc.Session, 1)
-	go func() {
-		s, _ := srv.ServeConn(b)
-		served <- s
-	}()
+	if sc.Path == "listen" {
+		// the accept loop behind ListenAndServe, on an in-memory listener
+		lis := NewMemListener(fmt.Sprintf("AL%d", n))
+		go erpc.VerifServeListener(srv, lis)
+		lis.Inject(b)
+		go func() {
+			// the loop reports nothing: the session is established when it is listed, rejected when the server closed the connection
+			// (a checker that calls SetID makes the still unauthenticated session visible for a moment: only a healthy one counts)
+			var s erpc.Session
+			WaitUntil(3*time.Second, func() bool {
+				s = nil
+				srv.RangeSession(func(x erpc.Session) bool {
+					if x.Health() {
+						s = x
+					}
+					return false
+				})
+				return s != nil || atomic.LoadInt32(&clientEOF) == 1
+			})
+			served <- s
+		}()
+	} else {
+		go func() {
+			s, _ := srv.ServeConn(b)
+			served <- s
+		}()
+	}
 	if sc.Timing == "stepwise" {
 		select {
 		case <-gotAuthReply:
